@@ -380,6 +380,51 @@ func (ru *Runner) execX(ws []string) {
 		}
 		sync()
 		ru.tag("x:bys:" + ws[2])
+	case "idle":
+		// one tick of the request ticker with no consumer around: the idle prefetcher
+		// (real periodicRequest -> pickIdlePieces) is the only requester
+		if ru.S.Held() || ru.dead {
+			return
+		}
+		before := 0
+		if snap, ok := ru.S.Snapshot(); ok {
+			before = len(snap)
+		}
+		ru.S.Tick()
+		sync()
+		snap, ok := ru.S.Snapshot()
+		if !ok {
+			return
+		}
+		// budget of periodicRequest's idle branch: int(rate*60/ps + 0.5), at least 2,
+		// rate = 2*IdleRate (nothing is being downloaded)
+		budget := int(float64(2*config.IdleRate())*60/float64(ru.S.PS) + 0.5)
+		if budget < 2 {
+			budget = 2
+		}
+		idle := 0
+		allComplete := true
+		for i := ru.S.Lo; i <= ru.S.Hi; i++ {
+			allComplete = allComplete && ru.S.T.Pieces.Complete(uint32(i))
+		}
+		for _, e := range snap {
+			if len(e.Prio) != 0 {
+				continue
+			}
+			idle++
+			ru.idleAdds[int(e.Index)] = true
+			if int(e.Index) < ru.S.N && ru.S.T.Pieces.Complete(e.Index) {
+				ru.violate("idle:requests-complete-piece", fmt.Sprintf("after an idle tick piece %d, which is verified and in memory, is requested at IdlePriority: no notification will ever retire it (requested=%v)", e.Index, snap))
+				break
+			}
+		}
+		if idle > budget && idle > before {
+			ru.violate("idle:over-budget", fmt.Sprintf("%d idle entries after a tick, the idle budget is %d (requested=%v)", idle, budget, snap))
+		}
+		if allComplete && len(snap) != 0 {
+			ru.violate("idle:never-drains", fmt.Sprintf("every piece is verified and no consumer is present, but the request set is %v", snap))
+		}
+		ru.tag("x:idle")
 	case "fill":
 		if ru.S.Held() {
 			ru.S.Fill()
